@@ -4,6 +4,7 @@ package main
 // SMT-LIB emission and the solver portfolio.
 
 import (
+	"crypto/sha1"
 	"runtime/debug"
 	"bytes"
 	"context"
@@ -60,6 +61,7 @@ type VC struct {
 	oblSeen map[string]int
 	specs   *SpecLib
 	frozen  int // >0 while evaluating under a binder: no naming, no assumptions
+	rootExec *Exec
 }
 
 func NewVC(fn string, specs *SpecLib) *VC {
@@ -217,6 +219,21 @@ func (o *Obligation) SMT(withModel bool) string {
 	}
 	var sb strings.Builder
 	sb.WriteString(preambleFixed)
+	// engine-generated identifiers of dynamic types (tid.*) and function values (fid.*)
+	idDefs := map[string]bool{}
+	for _, tk := range append(toks, tokenize(specText)...) {
+		if (strings.HasPrefix(tk, "tid.") || strings.HasPrefix(tk, "fid.")) && !idDefs[tk] {
+			idDefs[tk] = true
+		}
+	}
+	var idNames []string
+	for k := range idDefs {
+		idNames = append(idNames, k)
+	}
+	sort.Strings(idNames)
+	for _, k := range idNames {
+		sb.WriteString(fmt.Sprintf("(define-fun %s () Int %d)\n", k, vc.rootExec.P.symbolID(k)))
+	}
 	dt := datatypeDecl(structSorts)
 	if dt != "" {
 		sb.WriteString(dt + "\n")
@@ -320,10 +337,12 @@ func (o *Obligation) Solve(timeoutS int, keep bool) {
 	text := o.SMT(true)
 	o.Quant = strings.Contains(text, "(forall ") || strings.Contains(text, "(exists ")
 	fn := fileSafe.ReplaceAllString(o.Name, "_")
-	if len(fn) > 150 {
-		fn = fn[:150]
+	if len(fn) > 120 {
+		fn = fn[:120]
 	}
-	file := filepath.Join(ensureWorkDir(), fn+".smt2")
+	// names differing only in characters that are not file-safe must not share a file
+	hsum := sha1.Sum([]byte(o.Name))
+	file := filepath.Join(ensureWorkDir(), fmt.Sprintf("%s.%x.smt2", fn, hsum[:4]))
 	if err := os.WriteFile(file, []byte(text), 0644); err != nil {
 		panic(err)
 	}
